@@ -51,6 +51,10 @@ def main():
 
     build = common.ensure_build()
     obl = common.check_obligations(prop, build)
+    coqchk = None
+    if tier == "thorough" and not obl["problems"]:
+        probs, coqchk = common.run_coqchk(prop)
+        obl["problems"] += probs
     if obl["problems"]:
         log(f"[{prop}] proof obligations: {obl['problems']}")
     if not build.driver_ok:
@@ -60,6 +64,9 @@ def main():
     ctx.driver_ok = build.driver_ok
     suite.run(ctx)
     res = ctx.res
+    if coqchk is not None:
+        res.notes.append("coqchk -o (independent checker) re-checked the property file and its dependencies; axioms of the whole context: "
+                         + (", ".join(coqchk.get("axioms", [])) or "none") + "; no type-in-type, unsafe fixpoints or assumed positivity")
     broken = bool(obl["problems"]) or bool(res.disagreements) or not build.driver_ok
     if broken and not res.failures:
         # a theorem or the correspondence no longer checks: search harder for a concrete failing input
